@@ -46,6 +46,10 @@ structure WMsg where
   additionals : List WRecord
   deriving DecidableEq, Repr, Inhabited
 
+/-- octets a name occupies on the wire when written without compression: per label a length byte and the
+label's bytes, then the root byte.  RFC 1035 §2.3.4/§3.1: at most 255. -/
+def wireLen (n : WName) : Nat := (n.map (fun l => l.length + 1)).sum + 1
+
 /-- length of the presentation form `'.'.join(labels) + '.'` in characters -/
 def nameLen (n : WName) : Nat :=
   if n.isEmpty then 1 else (n.map (fun l => Utf8.charCount l + 1)).sum
